@@ -212,6 +212,10 @@ type Lifetime struct {
 	// multi-entry snapshot file: extra blank lines between (or before) its entries. The
 	// file stays predicted - the library ignores such lines. 0 = nothing.
 	PreEdit int `json:"preedit,omitempty"`
+	// Trimpath: this lifetime runs the test binary that was built with -trimpath (the
+	// library then resolves relative snapshot directories against the working directory,
+	// which for `go test` is the package directory - the same place).
+	Trimpath bool `json:"trimpath,omitempty"`
 	// FreshCfg: build a new Config from the same options for every call
 	// (differential oracle of property C12).
 	FreshCfg bool `json:"freshcfg,omitempty"`
